@@ -69,6 +69,12 @@ theorem SameOk.andThen {α β : Type} {a b : Except Err α} (h : SameOk a b) (k 
   unfold SameOk at *
   cases a <;> cases b <;> simp_all [Except.toOption, C18.andThen]
 
+theorem fillNodesB_val (d : Data) (ns : List String) (st : Dict F) :
+    (fillNodesB P d st ns).val = fillNodes P d st ns := by
+  induction ns generalizing st with
+  | nil => rfl
+  | cons n ns ih => exact ih _
+
 theorem evaluateAll_cons (d : Data) (na : NAAction) (s : EvalSt F) (f : Factor) (fs : List Factor) :
     evaluateAll P d na s (f :: fs) = andThen (evalFactor P d na s f) (fun s' => evaluateAll P d na s' fs) := by
   simp only [evaluateAll, andThen]
@@ -92,6 +98,7 @@ theorem evalFactor_toOption (d : Data) (na : NAAction) (s : EvalSt F) (f : Facto
       | some _ => some s
       | none => if blocked P d na f then none else some (stepOk P d na s f) := by
   unfold evalFactor blocked stepOk
+  simp only [fillNodesB_val]
   cases hc : s.cache f with
   | some v => rfl
   | none =>
